@@ -125,3 +125,75 @@ V("C01-t4", "C01", (LRB, "            n_bytes = min(remaining_size, max_n_bytes)
 V("C01-t5", "C01", (LRB, "        if (size + n_pad_bytes) % 2:", "        if (size + n_pad_bytes) % 2 == 1:"), "silent", "")
 V("C01-t6", "C01", (WR, "        if vrl < 20:\n            raise ValueError(\"Visible record length must be at least 20 bytes\")\n\n        if vrl > 16384:\n            raise ValueError(\"Visible record length cannot be larger than 16384 bytes\")\n",
                     "        if not 20 <= vrl <= 16384:\n            raise ValueError(\"Visible record length must be within 20..16384 bytes\")\n"), "silent", "")
+
+LR = "logical_record/core/logical_record/logical_record.py"
+NFD = "logical_record/iflr_types/no_format_frame_data.py"
+
+V("C02-b1", "C02", (LRB, "            start_pos += n_bytes\n", "            start_pos += n_bytes - 1\n"), "R02.1",
+  "one byte duplicated at every segment boundary")
+V("C02-b2", "C02", (LRB, "                n_bytes -= (12 - future_remaining_size)\n", "                n_bytes -= (11 - future_remaining_size)\n"),
+  "R02.1", "one byte dropped when a segment is shortened")
+V("C02-b3", "C02", (LRB, "            is_first=(start_pos == 0),", "            is_first=(start_pos >= 0),"), "R02.2",
+  "no segment ever has the predecessor bit")
+V("C02-b4", "C02", (LRB, "            is_last = end_pos == self._size\n", "            is_last = True\n"), "R02.2",
+  "every segment claims to be the last")
+V("C02-b5", "C02", (LRB, "new_bts = header_bytes + self._bts[start_pos:end_pos]", "new_bts = header_bytes + self._bts[start_pos + 1:end_pos]"),
+  "R02.1", "first byte of every slice dropped")
+V("C02-b6", "C02", (WR, "            for segment, segment_size in lr.represent_as_bytes().make_segments(max_lr_segment_size):",
+                    "            for segment, segment_size in reversed(list(lr.represent_as_bytes().make_segments(max_lr_segment_size))):"),
+  "R02.4", "segments written in reverse order")
+V("C02-b7", "C02", (LR, "            cls._lr_type_struct = RepresentationCode.USHORT.convert(cls.logical_record_type.value)",
+                    "            LogicalRecord._lr_type_struct = RepresentationCode.USHORT.convert(cls.logical_record_type.value)"),
+  "R02.3", "type byte memo shared by all record classes")
+V("C02-b8", "C02", (LRB, "        while remaining_size > 0:", "        while remaining_size > 12:"), "R02.1",
+  "short tail never emitted")
+V("C02-b9", "C02", (LRB, "                future_remaining_size = 12\n", "                future_remaining_size = 11\n"), "R02.1",
+  "bookkeeping off by one after shortening")
+V("C02-b10", "C02", (LR, "            self._make_body_bytes(),\n", "            self._make_body_bytes().rstrip(b'\\x00'),\n"), "R02.3",
+  "trailing zero bytes of the body stripped")
+V("C02-t1", "C02", (LRB, "            start_pos += n_bytes\n", "            start_pos = start_pos + n_bytes\n"), "silent", "")
+V("C02-t2", "C02", (LRB, "            if 0 < future_remaining_size < 12:", "            if future_remaining_size > 0 and future_remaining_size < 12:"),
+  "silent", "")
+V("C02-t3", "C02", (LRB, "            is_first=(start_pos == 0),", "            is_first=(not start_pos),"), "silent", "")
+
+V("C15-b1", "C15", (LRB, "        segment_attributes = SegmentAttributes(", "        if n_bytes < 12:\n            raise ValueError('too short')\n\n        segment_attributes = SegmentAttributes("),
+  "R15.1", "segment builder refuses short bodies again")
+V("C15-b2", "C15", (LRB, "        if max_n_bytes < 12:", "        if max_n_bytes < 24:"), ["R15.1", "R15.3"],
+  "segmenter refuses record lengths 20..30 that the validator accepts")
+V("C15-b3", "C15", (NFD, "        return self.no_format_object.obname + data_encoded\n",
+                    "        bts = self.no_format_object.obname + data_encoded\n        return bts + max(12 - len(bts), 0) * b'\\x01'\n"),
+  "R15.2", "in-body padding of no-format payloads is back")
+V("C15-b4", "C15", (WR, "        if vrl < 20:", "        if vrl < 16:"), ["R15.1", "R15.3"], "record lengths 16/18 validated but unwritable")
+V("C15-b5", "C15", (SUL, "    max_record_length_limit = 16384     #: maximal allowed length of a visible record",
+                    "    max_record_length_limit = 8192     #: maximal allowed length of a visible record"), "R15.3",
+  "label refuses lengths the writer accepts")
+V("C15-b6", "C15", (LRB, "        n_pad_bytes = max(16 - size, 0)\n", "        n_pad_bytes = max(16 - size, 0) if is_last else 0\n"),
+  "R15.2", "minimum-length padding only on the last segment (agent mutant C15-m1)")
+V("C15-t1", "C15", (LRB, "        if max_n_bytes < 12:", "        if not max_n_bytes >= 12:"), "silent", "")
+
+# ---------------------------------------------------------------------------------------------- C16
+V("C16-b1", "C16", (NFD, "        return self.no_format_object.obname + data_encoded\n",
+                    "        bts = self.no_format_object.obname + data_encoded\n        return bts + max(12 - len(bts), 0) * b'\\x01'\n"),
+  "R16.1", "in-body padding appended to short payloads")
+V("C16-b2", "C16", (NFD, "self.data.encode('ascii')", "self.data.encode('ascii', 'replace')"), "R16.1",
+  "non-ASCII text silently replaced by '?'")
+V("C16-b3", "C16", (NFD, "        return self.no_format_object.obname + data_encoded\n",
+                    "        return self.no_format_object.obname + data_encoded[:8000]\n"), "R16.1", "long payloads truncated")
+V("C16-b4", "C16", (FILE, "        self._no_format_frame_data.append(d)\n", "        self._no_format_frame_data.insert(0, d)\n"),
+  "R16.2", "records stored in reverse order")
+V("C16-b5", "C16", (FILE, "            yield from logical_file._no_format_frame_data\n",
+                    "            yield from sorted(logical_file._no_format_frame_data, key=lambda d: d.no_format_object.name)\n"),
+  "R16.2", "records grouped by object name when written")
+V("C16-b6", "C16", (NFD, "        self.data = data\n", "        self.data = data.strip() if isinstance(data, str) else data\n"),
+  "R16.1", "text payloads stripped of surrounding blanks")
+V("C16-b7", "C16", (LRB, "new_bts += n_pad_bytes * RepC.USHORT.convert(n_pad_bytes)", "new_bts += n_pad_bytes * self.padding"),
+  "R16.3", "pad count byte always 1: tiny payloads come back with 0x01 bytes appended (agent mutant C16-m3)")
+V("C16-b8", "C16", (NFD, "        return self.no_format_object.obname + data_encoded\n",
+                    "        return data_encoded + self.no_format_object.obname\n"), "R16.1", "payload before the reference")
+V("C16-t1", "C16", [(NFD, "            data_encoded = self.data\n", "            payload = self.data\n"),
+                    (NFD, "            data_encoded = self.data.encode('ascii')\n", "            payload = self.data.encode('ascii')\n"),
+                    (NFD, "self.no_format_object.obname + data_encoded", "self.no_format_object.obname + payload")],
+  "silent", "rename")
+V("C16-t2", "C16", (NFD, "        if isinstance(self.data, (bytes, bytearray)):\n            data_encoded = self.data\n        else:\n            data_encoded = self.data.encode('ascii')\n",
+                    "        data_encoded = self.data if not isinstance(self.data, str) else self.data.encode('ascii')\n"),
+  "silent", "conditional expression")
